@@ -35,6 +35,7 @@
 #include "harness.hpp"
 
 #include "NifUtil.hpp"
+#include "NifFile.hpp"
 
 #include <algorithm>
 #include <array>
@@ -714,6 +715,77 @@ Verdict checkStrips(Run& run, const std::vector<std::vector<uint16_t>>& in) {
 	}
 	if (!want.empty())
 		run.cls(exact ? "strips:corner-order-identical-to-model" : "strips:corner-order-rotated-vs-model");
+
+	// ---- the users of the template hand on the same triangles
+	auto sameAsWant = [&](const std::vector<Tri3>& g) {
+		if (g.size() != want.size())
+			return false;
+		for (size_t i = 0; i < g.size(); i++)
+			if (!sameUpToRotation(g[i], want[i]))
+				return false;
+		return true;
+	};
+	auto userFail = [&](const std::string& user, const std::vector<Tri3>& g) {
+		std::string s = "[";
+		for (size_t i = 0; i < in.size() && i < 8; i++)
+			s += (i ? "," : "") + showSeq(in[i]);
+		return run.fail("C18:" + user + ":model-mismatch", J().s("function", user).raw("strips", s + "]").raw("expected_up_to_rotation", showTris(want)).raw("got", showTris(g)).str());
+	};
+	{
+		nifly::NiTriStripsData d;
+		d.stripsInfo.points = in;
+		std::vector<nifly::Triangle> tr;
+		d.GetTriangles(tr);
+		run.cls("inst:NiTriStripsData::GetTriangles");
+		if (!sameAsWant(fromLib(tr)) || d.GetNumTriangles() != want.size())
+			return userFail("NiTriStripsData::GetTriangles", fromLib(tr));
+	}
+	if (want.size() <= 65535) {
+		nifly::NiSkinPartition::PartitionBlock pb;
+		pb.numStrips = static_cast<uint16_t>(in.size());
+		pb.strips = in;
+		bool conv = pb.ConvertStripsToTriangles();
+		run.cls("inst:PartitionBlock::ConvertStripsToTriangles");
+		if (conv != !in.empty())
+			return userFail("PartitionBlock::ConvertStripsToTriangles(return)", fromLib(pb.triangles));
+		if (conv && (!sameAsWant(fromLib(pb.triangles)) || pb.numTriangles != want.size() || pb.numStrips != 0 || !pb.strips.empty()))
+			return userFail("PartitionBlock::ConvertStripsToTriangles", fromLib(pb.triangles));
+	}
+	static uint32_t every = 0;
+	if (!want.empty() && (every++ % 4) == 0) {
+		// NifFile::TriangulateShape on a model holding these strips
+		uint16_t maxIdx = 0;
+		for (auto& p : in)
+			for (auto v : p)
+				maxIdx = std::max(maxIdx, v);
+		nifly::NifFile nif;
+		nif.Create(nifly::NiVersion::getFO3());
+		auto& hdr = nif.GetHeader();
+		auto data = std::make_unique<nifly::NiTriStripsData>();
+		{
+			std::vector<nifly::Vector3> verts(static_cast<size_t>(maxIdx) + 1);
+			data->NiGeometryData::Create(hdr.GetVersion(), &verts, nullptr, nullptr, nullptr);
+		}
+		data->stripsInfo.points = in;
+		for (auto& p : in) {
+			uint16_t len = static_cast<uint16_t>(p.size());
+			data->stripsInfo.stripLengths.push_back(len);
+		}
+		auto shape = std::make_unique<nifly::NiTriStrips>();
+		shape->name.get() = "strips";
+		shape->SetGeomData(data.get());
+		shape->DataRef()->index = hdr.AddBlock(std::move(data));
+		auto shapePtr = shape.get();
+		nif.GetRootNode()->childRefs.AddBlockRef(hdr.AddBlock(std::move(shape)));
+		nif.TriangulateShape(shapePtr);
+		run.cls("inst:NifFile::TriangulateShape");
+		auto shapes = nif.GetShapes();
+		std::vector<nifly::Triangle> tr;
+		if (shapes.size() == 1)
+			shapes[0]->GetTriangles(tr);
+		if (shapes.size() != 1 || !shapes[0]->HasType<nifly::NiTriShape>() || !sameAsWant(fromLib(tr)))
+			return userFail("NifFile::TriangulateShape", fromLib(tr));
+	}
 	return OK;
 }
 
